@@ -702,13 +702,15 @@ func TestAlternativeTables(t *testing.T) {
 			run.Label("table:type-of-several-kinds")
 		default:
 			// a key shortcut whose string type has an alternative that takes every string
-			every := rapid.SampledFrom([]string{`"string"`, `{type: "string"}`, `{type: "string", minLength: 0}`}).Draw(t, "everyString")
+			every := rapid.SampledFrom([]string{`"string"`, `{type: "string"}`, `{type: "string", minLength: 0}`, `"@c"`, `{type: "@c"}`}).Draw(t, "everyString")
+			// (@c: a type whose values are not bound to the kind of its own example)
+			cText := rapid.SampledFrom([]string{`12 // {or: ["any", "boolean"]}`, `12 // {type: "any"}`, `null // {type: "any"}`, `12 // {or: [{type: "any"}, "null"]}`}).Draw(t, "anyType")
 			ex := rapid.SampledFrom([]string{`"x"`, `"12"`, `"nn"`}).Draw(t, "keyExample")
 			alts := []string{every, `"@n"`}
 			if rapid.Bool().Draw(t, "order") {
 				alts[0], alts[1] = alts[1], alts[0]
 			}
-			c.Spec = lib.Spec{Schema: "{\n  @k: 1\n}", Types: []lib.Named{{Name: "@k", Text: ex + " // {or: [" + strings.Join(alts, ", ") + "]}"}, {Name: "@n", Text: `"nn"`}}}
+			c.Spec = lib.Spec{Schema: "{\n  @k: 1\n}", Types: []lib.Named{{Name: "@k", Text: ex + " // {or: [" + strings.Join(alts, ", ") + "]}"}, {Name: "@n", Text: `"nn"`}, {Name: "@c", Text: cText}}}
 			c.MustCheck = true
 			c.Accept = []string{`{"abc":1}`, `{"x":1}`, `{"nn":1}`, `{"12":2}`, `{"":3}`, `{"abc":1,"x":2}`}
 			c.Reject = []string{`{"abc":"s"}`, `{"x":null}`}
